@@ -6,6 +6,7 @@
 #include <deque>
 #include <memory>
 #include <sstream>
+#include <stdexcept>
 
 #include "../engine/seqx/seqx.h"
 
@@ -380,10 +381,125 @@ static void dfs(seqx::Runner &R, int ty, int depth, std::vector<int> &seq, const
     }
 }
 
+// ---------------------------------------------------------------------------------------------- single-slot instantiation
+// queue<int, single_item_queue, single_item_queue>: one stored item and one waiting pop at most; a second one is refused
+// with an exception and changes nothing
+static void run_single_slot(seqx::Runner &R, const std::vector<int> &seq) {
+    std::ostringstream d;
+    d << "single-slot;ops=";
+    for (size_t i = 0; i < seq.size(); i++) d << (i ? "," : "") << (seq[i] ? "pop" : "push");
+    R.begin(d.str());
+    int64_t base = seqx::live_allocs();
+    {
+        using Q1 = cocls::queue<int, cocls::primitives::single_item_queue, cocls::primitives::single_item_queue>;
+        auto q = std::make_unique<Q1>();
+        std::vector<std::unique_ptr<cocls::future<int>>> pops;
+        std::vector<int> pop_state, pop_value;  // model: 0 waiting, 1 value
+        int stored = 0, waiter = -1, next_val = 1;
+        bool ok = true;
+        for (size_t i = 0; i < seq.size() && ok; i++) {
+            R.step();
+            bool threw = false;
+            if (seq[i] == 0) {
+                int v = next_val++;
+                bool expect_throw = waiter < 0 && stored != 0;
+                try {
+                    q->push(v);
+                } catch (const std::runtime_error &) {
+                    threw = true;
+                }
+                if (threw != expect_throw) {
+                    R.fail("q/single-slot-guard", "step %zu: push %s although the slot is %s and %s pop waits", i, threw ? "was refused" : "was accepted", stored ? "occupied" : "free", waiter >= 0 ? "a" : "no");
+                    ok = false;
+                }
+                if (!expect_throw) {
+                    if (waiter >= 0) {
+                        pop_state[(size_t)waiter] = 1;
+                        pop_value[(size_t)waiter] = v;
+                        waiter = -1;
+                    } else
+                        stored = v;
+                }
+            } else {
+                bool expect_throw = stored == 0 && waiter >= 0;
+                try {
+                    pops.emplace_back(new cocls::future<int>(q->pop()));
+                } catch (const std::runtime_error &) {
+                    threw = true;
+                }
+                if (threw != expect_throw) {
+                    R.fail("q/single-slot-guard", "step %zu: a second waiting pop %s", i, threw ? "was refused although nobody waits" : "was accepted although one already waits");
+                    ok = false;
+                    if (!threw) (void)pops.back().release();
+                    if (!threw) pops.pop_back();
+                }
+                if (!expect_throw && ok) {
+                    if (stored) {
+                        pop_state.push_back(1);
+                        pop_value.push_back(stored);
+                        stored = 0;
+                    } else {
+                        waiter = (int)pop_state.size();
+                        pop_state.push_back(0);
+                        pop_value.push_back(0);
+                    }
+                }
+            }
+            for (size_t k = 0; k < pops.size() && ok; k++) {
+                bool rdy = pops[k]->ready();
+                int v = 0, st = 0;
+                if (rdy) {
+                    try {
+                        v = pops[k]->value();
+                        st = 1;
+                    } catch (...) {
+                        st = 3;
+                    }
+                }
+                if (st != pop_state[k] || (st == 1 && v != pop_value[k])) {
+                    R.fail(st == 3 ? "q/pop-wrong-outcome" : st == 0 ? "q/pop-not-completed" : "q/pop-wrong-item",
+                           "after step %zu: pop #%zu is in state %d with value %d, the model says state %d value %d (0 waiting, 1 value, 3 cancelled)", i, k, st, v, pop_state[k], pop_value[k]);
+                    ok = false;
+                }
+            }
+            if (ok && q->size() != (stored ? 1u : 0u)) {
+                R.fail("q/size", "after step %zu: size()=%zu, the model holds %d items", i, q->size(), stored ? 1 : 0);
+                ok = false;
+            }
+            R.state(seqx::mix((uint64_t)stored != 0, (uint64_t)(waiter >= 0) + 2));
+        }
+        q.reset();
+        for (auto &p : pops)
+            if (p && !p->ready()) {
+                if (ok) R.fail("q/pop-hangs-after-destroy", "a pop is still pending after the queue was destroyed");
+                (void)p.release();
+            }
+        R.outcome(seqx::mix((uint64_t)stored, (uint64_t)waiter + 5));
+    }
+    if (!R.case_fail && seqx::live_allocs() != base) R.fail("q/allocation-balance", "%ld allocations not released", (long)(seqx::live_allocs() - base));
+    R.end(true);
+}
+static void enum_single_slot(seqx::Runner &R, int depth, std::vector<int> &seq) {
+    if (R.stop()) return;
+    if ((int)seq.size() == depth) {
+        if (R.next_case()) run_single_slot(R, seq);
+        return;
+    }
+    for (int op = 0; op < 2; op++) {
+        seq.push_back(op);
+        enum_single_slot(R, depth, seq);
+        seq.pop_back();
+    }
+}
+
 }  // namespace
 
 void seqx_run(seqx::Runner &R, const std::string &tier) {
     int depth = tier == "quick" ? 7 : 9;
+    {
+        std::vector<int> ss;
+        for (int dd = 1; dd <= (tier == "quick" ? 6 : 8); dd++) enum_single_slot(R, dd, ss);
+    }
     for (int ty = 0; ty < 4; ty++) {
         Model m;
         std::vector<int> seq;
@@ -392,6 +508,15 @@ void seqx_run(seqx::Runner &R, const std::string &tier) {
 }
 
 void seqx_replay(seqx::Runner &R, const std::string &c) {
+    if (c.rfind("single-slot;", 0) == 0) {
+        std::vector<int> seq;
+        std::stringstream ss(c.substr(c.find("ops=") + 4));
+        std::string tok;
+        while (std::getline(ss, tok, ',')) seq.push_back(tok == "pop" ? 1 : 0);
+        R.next_case();
+        run_single_slot(R, seq);
+        return;
+    }
     int ty = 0;
     for (int i = 0; i < 4; i++)
         if (c.find(std::string("type=") + ty_names[i] + ";") != std::string::npos) ty = i;
